@@ -666,7 +666,14 @@ def _loops(ctx: Ctx) -> None:
     c05_loops.rule_b(ctx)
 
 
-RULES = [rule_c, rule_d, rule_e, rule_f, rule_g, _loops, rule_h]
+def rule_i(ctx: Ctx) -> None:
+    from . import c05_index
+
+    c05_index.rule_i(ctx)
+    c05_index.rule_j(ctx)
+
+
+RULES = [rule_c, rule_d, rule_e, rule_f, rule_g, _loops, rule_h, rule_i]
 EXPLANATION = (
     "Termination and exception-family discipline decided on every path of the tokenizer/parser/generator sources: progress "
     "witnesses for every while loop with interprocedural 'productive' summaries, provenance of every _retreat target, "
